@@ -1,7 +1,8 @@
 (* The complete state an Airplane object holds (airplane.py 137-215) - position, attitude, Earth-fixed velocity, body rates and the
    frame the rates were given in, which selects the axes of the damping derivatives (scene.py 2075-2090) - and how the two analyses
    that go through set_state with a keyword dictionary put it back: state_derivatives (scene.py 2376-2414) and
-   pitch_trim_using_orientation(set_trim_state=False) (scene.py 2771-2940).  A frame that is not named in the dictionary is "body". *)
+   pitch_trim_using_orientation(set_trim_state=False) (scene.py 2771-2940); since fix 13935a1 export_pylot_model puts the state back the
+   same way after its sweeps.  A frame that is not named in the dictionary is "body". *)
 From Coq Require Import ZArith List Bool.
 From MuxV Require Import Base.Num Base.Vec3 Model.Helpers Model.AeroState.
 Import ListNotations.
